@@ -9,6 +9,7 @@ package main
 
 import (
 	"fmt"
+	"net"
 	"testing"
 	"time"
 
@@ -18,7 +19,7 @@ import (
 func TestC06(t *testing.T) {
 	V.Rule("lab: requests with 0-6 existing Via entries and 0-4 Record-Route entries in any line layout and at any position among the other headers, over the three request paths (backend, Route, static route), must-record-route absent/true/false per listen entry, UDP and TCP ingress, next hop learned through the receiving listener, learned through another listener (an earlier request came from that host), or never learned. Oracle: Via list = [SIP/2.0/<listener transport> addr:port;branch=z9hG4bK+>=8 fresh chars] + input iff destination is a backend or a learned hop (else = input); Record-Route list = [<sip:addr:port;lr>] + input iff a Via was pushed and (input has Record-Route or must-record-route), else = input. Hops known only from the message being routed, or known by name vs by address only, are don't-cares. Branch freshness over every request of the run plus a dedicated run of 12000 (thorough: 20000) relayed requests. non-trivial = >= 2 existing Via entries in >= 2 lines, or >= 1 existing Record-Route, or the not-learned / other-listener variants; distinct by message")
 	V.Assume("branch freshness is a probabilistic oracle: 48 random bits, P(collision among 20000) < 1e-6")
-	V.Require("via pushed", "no via (hop not learned)", "via names another listener", "rr added", "rr not added (policy)", "existing rr kept", "path:backend", "path:route", "path:static", ">=2 vias in >=2 lines")
+	V.Require("an unrelated TCP connection ended before the request", "via pushed", "no via (hop not learned)", "via names another listener", "rr added", "rr not added (policy)", "existing rr kept", "path:backend", "path:route", "path:static", ">=2 vias in >=2 lines")
 	vars := []stdVariant{
 		{MustRR: [3]string{"", "true", "false"}, NoReceived: [3]string{"", "", "true"}},
 		{Keep: "on", MustRR: [3]string{"true", "", ""}},
@@ -36,6 +37,22 @@ func TestC06(t *testing.T) {
 	}
 	rcheck(t, "insert", V.N(2500, 20000), func(rt *rapid.T) {
 		s := svcs[rapid.IntRange(0, len(svcs)-1).Draw(rt, "instance")]
+		if rapid.IntRange(0, 7).Draw(rt, "an unrelated TCP client comes and goes") == 0 {
+			// what the proxy has learned about next hops does not depend on other
+			// clients' connections ending
+			l := s.in.cfg.Listens[rapid.IntRange(0, 1).Draw(rt, "churn entry")]
+			if c, err := s.in.hub.dialTCP("passer-by", s.ip(60), l.Addr, l.TCPPort); err == nil {
+				if rapid.Bool().Draw(rt, "half-close first") {
+					if tc, ok := c.conn.(*net.TCPConn); ok {
+						tc.CloseWrite()
+						time.Sleep(300 * time.Microsecond)
+					}
+				}
+				c.close()
+				time.Sleep(2 * time.Millisecond)
+				V.Class("an unrelated TCP connection ended before the request")
+			}
+		}
 		rc := s.gRelayRequest(rt, relayOpts{Paths: []string{"backend", "route", "static"}, MaxVias: 6, MaxRRs: 4, MaxExt: 6, MaxLong: 0, MaxBody: 60, Entries: []int{0, 1, 2}})
 		res, err := s.runRequestJournal(t.Name()+"/insert", rc, func(exp mOutcome) any { return rc })
 		if _, lost := err.(labLost); lost {
